@@ -445,6 +445,8 @@ Fixpoint oracle_get (t : name) (o : oracle) : subresp :=
   | [] => SubErr
   | (n, r) :: rest => if bytes_list_eqb n t then r else oracle_get t rest
   end.
+Definition oracle_records (o : oracle) : list rr :=
+  flat_map (fun p => match snd p with SubResp _ a _ => a | SubErr => [] end) o.
 Fixpoint mem_exact (t : name) (l : list name) : bool :=
   match l with [] => false | x :: r => bytes_list_eqb x t || mem_exact t r end.
 
